@@ -77,7 +77,9 @@ Record Inv1 (s : cl) : Prop := {
   i_j1 : J1 s; i_pos : Jpos s; i_j4 : J4 s; i_tm : Jtimer s; i_conn : Jconn s; i_scan : Jscan s }.
 
 (** labels are well formed when request ids are non-zero *)
-Definition wf_lab (l : lab) : Prop := match l with Send r _ => r <> 0 | _ => True end.
+(** [DirectComplete] is not an event of the endpoint (the OCPP-J layer calls CompleteRequest for the pending id only);
+    it exists to tie the model's [complete] to the code on foreign ids and is excluded from the theorems. *)
+Definition wf_lab (l : lab) : Prop := match l with Send r _ => r <> 0 | DirectComplete _ => False | _ => True end.
 
 Lemma inv1_init c t : Inv1 (init c t).
 Proof. constructor; [ intros H; cbv in H; congruence | apply Forall_nil | reflexivity | intros H; cbv in H; discriminate | intros H; cbv in H; discriminate | reflexivity ]. Qed.
@@ -238,6 +240,7 @@ Proof.
   - (* NetFail *) g1ext G.
   - (* Stop *) destruct (started s && negb (closing s)); [g1ext G|exact G].
   - (* Start *) destruct (negb (started s)); [g1ext G|exact G].
+  - (* DirectComplete *) contradiction.
   - (* PumpStop *)
     destruct (started s && closing s && negb (pumpStuck s)); [|exact G].
     constructor; unfold J1, Jpos, J4; cbn; [congruence|constructor|reflexivity].
@@ -376,6 +379,9 @@ Proof.
   - (* Start *)
     destruct (negb (started s)); [|exact G].
     constructor; unfold Jconn, Jclosing, Jscan; cbn; [reflexivity|congruence|rewrite Hs; reflexivity].
+  - (* DirectComplete *)
+    destruct (complete_frame false s r) as (B1 & B2 & _ & _ & B3 & B4). pose proof (complete_closing false s r) as B5.
+    constructor; unfold Jconn, Jclosing, Jscan; rewrite ?B1, ?B2, ?B3, ?B4, ?B5; assumption.
   - (* PumpStop *)
     destruct (started s && closing s && negb (pumpStuck s)) eqn:E; [|exact G].
     apply andb_true_iff in E as [E _]. apply andb_true_iff in E as [_ E].
@@ -551,8 +557,7 @@ Qed.
 
 Ltac fin := cbn in *; intros; subst; try tauto; try lia; try congruence; auto.
 
-Lemma remove_last_app {A} (l : list A) x : remove_last (l ++ [x]) = l.
-Proof. induction l as [|a l IH]; [reflexivity|]. change ((a :: l) ++ [x]) with (a :: (l ++ [x])). cbn [remove_last]. destruct (l ++ [x]) eqn:E; [destruct l; discriminate|]. rewrite <- IH. reflexivity. Qed.
+
 
 Ltac own_cons1 := constructor; [exact I|assumption].
 Ltac closer Sf :=
@@ -661,10 +666,11 @@ Lemma step_SI_int l s : wf_lab l -> G1 s -> G2 s -> SI s -> ok_at l s = true ->
   match l with Send _ _ | Expire | Tick _ | NetFail _ | Stop | Start | Drop | Reconn => True | _ => SI (step l s) end.
 Proof.
   intros Hw G1s [Jc Jcl Js] S Hok. pose proof G1s as [J1' Jp J4'].
+  assert (HDC : forall r, l = DirectComplete r -> False) by (intros r ->; exact Hw).
   pose proof S as [Sa Sb Sc Sd Se Sf Sg Sh Si Sj Sk].
   unfold ok_at in Hok. apply andb_true_iff in Hok as [HT Hok]. apply Z.leb_le in HT.
   destruct (T_facts s S HT) as (TF1 & TF2 & TF3).
-  destruct l; try exact I; cbn [is_ext] in Hok.
+  destruct l; try exact I; try (exfalso; eapply HDC; reflexivity); cbn [is_ext] in Hok.
   - (* Reply *)
     apply andb_true_iff in Hok as [Hok Hcc]; apply andb_true_iff in Hok as [Hcl Hsg];
     apply negb_true_iff in Hcl; apply negb_true_iff in Hsg;
